@@ -17,7 +17,7 @@ func main() {
 	trk := &peer.Tracker{}
 	lg := &peer.CapLogger{}
 	l, _ := peer.Listen()
-	cfg, err := hsmsss.NewConfig("127.0.0.1", l.Port(), hsmsss.WithActive(), hsmsss.WithDialer(trk.DialFunc),
+	cfg, err := hsmsss.NewConfig(peer.LoopHost, l.Port(), hsmsss.WithActive(), hsmsss.WithDialer(trk.DialFunc),
 		hsmsss.WithConnectionOption(hsms.WithSessionID(0x1234)), hsmsss.WithConnectionOption(hsms.WithWriteTimeout(200*time.Millisecond)),
 		hsmsss.WithConnectionOption(hsms.WithLogger(lg)))
 	fmt.Println(err)
